@@ -692,3 +692,8 @@ func bodyHas(pkg *packages.Package, fn *types.Func, feature string) bool {
 	}
 	return false
 }
+
+// mergedRoles: a pinned helper whose body may have been inlined into its only caller.
+var mergedRoles = []struct{ Missing, Host, Body string }{
+	{"(*internal/utils/wpool.Pool).lazyResend", "(*internal/utils/wpool.Pool).lazySend", "sel:TryLock"},
+}
